@@ -134,6 +134,32 @@ def cases(rng, tier, stats):
                     out.append(prog_case("fresh-body-scope", prog, info={"probe": probe, "nest": nest, "when": when, "context": ctx}))
                     nf += 1
     stats["fresh_body_scope"] = nf
+    # a call's arguments are evaluated in the caller's scopes, before any parameter of the callee exists: caller variables named
+    # like the callee's parameters (read, and assigned through a helper called in a later argument), at top level, inside
+    # blocks that shadow them, and in accumulator recursion
+    nc = 0
+    for depth in (0, 1, 2):
+        for variant in range(4):
+            prog = [("func", "যোগ", ["ক", "খ"], [("return", G.bin_("+", G.var("ক"), G.var("খ")))]),
+                    ("func", "জোড়া", ["গ", "ঘ"], [("return", G.lst(G.var("গ"), G.var("ঘ")))]),
+                    ("decl", "গ", G.num(0)),
+                    ("func", "গুনতি", [], [("assign", "গ", [], G.bin_("+", G.var("গ"), G.num(1))), ("return", G.var("গ"))]),
+                    ("func", "গুণ", ["ন", "ফল"], [("if", [(G.bin_("<=", G.var("ন"), G.num(1)), [("return", G.var("ফল"))])], None),
+                                                  ("return", G.call("গুণ", G.bin_("-", G.var("ন"), G.num(1)), G.bin_("*", G.var("ফল"), G.var("ন"))))]),
+                    ("decl", "ক", G.num(10)), ("decl", "খ", G.num(3))]
+            body = [("print", G.call("যোগ", G.num(1), G.var("ক"))), ("print", G.call("যোগ", G.var("খ"), G.var("ক"))),
+                    ("print", G.call("জোড়া", G.num(100), G.call("গুনতি"))), ("print", G.var("গ")),
+                    ("print", G.call("গুণ", G.num(5), G.num(1)))]
+            if variant & 1:
+                body = [("decl", "ক", G.num(20 + depth))] + body + [("assign", "ক", [], G.call("যোগ", G.num(2), G.bin_("+", G.var("ক"), G.num(1)))), ("print", G.var("ক"))]
+            if variant & 2:
+                body.append(("print", G.call("যোগ", G.call("যোগ", G.var("খ"), G.var("ক")), G.call("যোগ", G.var("ক"), G.var("খ")))))
+            for d in range(depth):
+                body = [("block", body)] if d % 2 == 0 else [("if", [(G.b(True), body)], None)]
+            prog += body + [("print", G.var("ক")), ("print", G.var("গ"))]
+            out.append(prog_case("argument-scope", prog, info={"depth": depth, "variant": variant}))
+            nc += 1
+    stats["argument_scope"] = nc
     stats["programs"] = n
     stats["shadowing_declarations"] = sh
     return out
